@@ -91,6 +91,17 @@ def handleC10 (cmd : String) (args : List Sexp) : Option Sexp :=
       let fs := runTasks (runTasks (fun _ => none) ts1) ts2
       let paths := ((ts1 ++ ts2).map (·.1)).eraseDups.filter fun p => (fs p).isSome
       pure (.list [.list (paths.map pathSx), optTreeSx (load (depth t2) fs [])])
+  -- (c10.refresh tree (dir…) key dtype (shape) (bytes…)): the tree is saved and mapped by a reader; through another mapping
+  -- make_memmap creates `key` in `dir` and fills it; -> (fresh load, reader after load_memmap_, reader under the skipping loader)
+  | "c10.refresh", [t, .list dir, .atom key, .atom dt, .list sh, .list b] => do
+      let t ← tree? t; let dir ← dir.mapM asAtom?; let sh ← nats? sh; let b ← nats? b
+      let fs := runTasks (fun _ => none) (tasksTree [] t)
+      match makeMemmap fs dir key dt sh b.length with
+      | none => pure (.atom "none")
+      | some fs' =>
+        let fs1 := if numel sh = 0 then fs' else writeLeaf fs' dir key b
+        let fuel := depth t + 1
+        pure (.list [optTreeSx (load fuel fs1 []), optTreeSx (loadInto fuel fs1 [] t), optTreeSx (loadIntoSkip fuel fs1 [] t)])
   | _, _ => none
 
 end TdVerif.Drive
